@@ -23,7 +23,7 @@ RULE = ('[table on the real code: one function registered under two names with b
         'consumer parameters bound to values in which @target / @scope/target() references are nested inside lists, '
         'tuples and dict keys/values, targets possibly referring to further targets (acyclic, depth <= 3); 2-5 consuming '
         'calls under random ambient scopes with random caller-supplied parameters (positional / keyword, some of them '
-        'gin.REQUIRED), some bindings parsed with skip_unknown=True, every probe '
+        'gin.REQUIRED; in some cases the bound parameters carry the signature default gin.REQUIRED), some bindings parsed with skip_unknown=True, every probe '
         'mutating each container it receives; the full per-target call log, the store and queries are observed. '
         'non-trivial = at least one evaluated reference nested in a container is evaluated and at least one call '
         'overrides a reference-bound parameter; distinct = canonical ops')
@@ -119,6 +119,15 @@ def gen_case(rng):
         ops.append({'op': 'bind', 'scope': '/'.join(rng.choice(scopes)), 'sel': c['_selector'], 'arg': rng.choice(cls),
                     'val': rng.choice([{'set': [1, 2], 'm': 1}, {'l': [1, {'set': [3], 'm': 1}]}, {'set': [], 'm': 1}]),
                     '_form': 'tuple', 'block': False})
+  if rng.random() < 0.4:
+    # parameters Gin has a (reference-holding) value for are declared with the signature default gin.REQUIRED: Gin
+    # supplies them as before, and when the caller supplies one the references bound to it are not called either
+    for c in consumers:
+      bound = {o['arg'] for o in ops if o['op'] == 'bind' and o['sel'] == c['_selector']}
+      for plist in (c['sig']['pos'], c['sig']['kwonly']):
+        for p in plist:
+          if p[0] in bound and p[1] is not None and rng.random() < 0.7:
+            p[1] = {'v': G.REQ}
   ops.append({'op': 'config'})
   if rng.random() < 0.35:
     ops.append({'op': 'finalize'})    # the same calls on a locked configuration
@@ -264,7 +273,7 @@ def gen_cases(rng, tier, boost=1):
   # references under dynamic registration (files of the C19 generator that hold `@name` / `@scope/name()` values): what
   # a reference delivers after later files re-registered its class is judged by C19's machinery
   from props import c19
-  want, seen = (80 if tier == 'quick' else 3000) * boost, 0
+  want, seen = (300 if tier == 'quick' else 3000) * boost, 0
   for case in c19.gen_cases(rng, 'thorough', boost):
     if any(st.get('k') == 'bindref' for u in case['units'] for st in u):
       yield case
